@@ -269,3 +269,42 @@ close = Contract(
     bounded='0..3 open handles',
 )
 UNITS += [prune, close]
+
+
+def prune_replay(inputs, clause):
+    """real HandleLimiter with n open gzip handles (write times from the counter-model) and the model's maxHandles: prune"""
+    import os
+    import shutil
+    import tempfile
+    from pyvc.contract import import_real
+    HL = import_real(FH, 'HandleLimiter')
+    a = inputs['self']['attrs']
+    n, mx = len(a['openHandles']), int(a['maxHandles'])
+    base = os.path.join(os.path.dirname(os.path.dirname(os.path.abspath(__file__))), '.scratch')
+    os.makedirs(base, exist_ok=True)
+    d = tempfile.mkdtemp(prefix='c19p_', dir=base)
+    try:
+        hl = HL(maxHandles=max(mx, 0), pruneEvery=10 ** 9)
+        paths = []
+        for i, (name, ent) in enumerate(sorted(a['openHandles'].items())):
+            p = os.path.join(d, name)
+            hl.write(p, 'x%d\n' % i, method=1)
+            hl.openHandles[p]['lastw'] = float(ent['lastw']) if not isinstance(ent['lastw'], str) else float(i)
+            paths.append(p)
+        hl.maxHandles = mx
+        hl.prune()
+        left = sorted(hl.openHandles)
+        still_open = [p for p in left if not hl.openHandles[p]['handle'].closed]
+        obs = {'outcome': 'return', 'value': {'registered_after_prune': len(left), 'expected': min(n, mx), 'open_among_them': len(still_open)}}
+        failed = []
+        if len(left) != min(n, mx):
+            failed.append({'clause': 'at_most_maxHandles_remain'})
+        if len(still_open) != len(left):
+            failed.append({'clause': 'remaining_handles_are_open'})
+        hl.close()
+        return {'status': 'confirmed' if failed else 'not-reproduced', 'observed': obs, 'failed': failed}
+    finally:
+        shutil.rmtree(d, ignore_errors=True)
+
+
+prune.replay = prune_replay
